@@ -26,10 +26,11 @@ class Site:
 class ResendRule(BaseRule):
     """Opaque calls do not raise here (path explosion is irrelevant to provenance); only the request step fails."""
 
-    def __init__(self, m, fi):
+    def __init__(self, m, fi, hot=frozenset()):
         self.m, self.fi = m, fi
         self.sites = []
         self.params = fi.params()
+        self.hot = hot
 
     # -- helpers
     def _bind_call_args(self, node, pos, kw, target_fi):
@@ -229,7 +230,11 @@ class ResendRule(BaseRule):
             return ret(AV("exc", it.m.norm(q), truth=True, none=False))
         if t == "_wrap_proxy_error":
             return ret(AV("exc", "urllib3.exceptions.ProxyError", truth=True, none=False))
-        # everything else: quiet
+        # helper methods of the driver's own class that reach a rule event are inlined (a helper-extraction refactor
+        # must not change what the rules see); everything else is quiet
+        q = it.resolve_callee(node, recv)
+        if q in self.hot:
+            return None
         return ret(AV("unk"))
 
     def getattr(self, it, st, node, base):
@@ -270,6 +275,42 @@ class ResendRule(BaseRule):
         return None
 
 
+EVENT_ATTRS = {"urlopen", "from_int", "increment", "drain_conn", "_make_request", "is_same_host", "get_redirect_location", "_prepare_proxy", "_get_conn",
+               "connection_from_host", "_proxy_requires_url_absolute_form", "sleep", "sleep_for_retry", "is_retry"}
+NEVER_INLINE = {"urlopen", "_make_request", "_get_conn", "_put_conn", "_new_conn", "_prepare_proxy", "_validate_conn", "_get_timeout", "_raise_timeout",
+                "is_same_host", "connection_from_host", "connection_from_url", "connection_from_context", "connection_from_pool_key", "_new_pool",
+                "_merge_pool_kwargs", "_proxy_requires_url_absolute_form", "request", "request_encode_url", "request_encode_body", "close", "clear"}
+
+
+def hot_helpers(m, cls, driver):
+    """Methods of the driver's class (and its bases) other than the modelled ones from which a resend-analysis event is reachable."""
+    methods = {}
+    for c in m.mro(cls):
+        ci = m.classes.get(c)
+        if ci is None:
+            continue
+        for n_, f in ci.methods.items():
+            methods.setdefault(n_, f)
+    def direct(f):
+        for x in ast.walk(f.node):
+            if isinstance(x, ast.Call) and isinstance(x.func, ast.Attribute) and x.func.attr in EVENT_ATTRS:
+                return True
+        return False
+    hot = {n_ for n_, f in methods.items() if n_ not in NEVER_INLINE and direct(f)}
+    changed = True
+    while changed:
+        changed = False
+        for n_, f in methods.items():
+            if n_ in hot or n_ in NEVER_INLINE:
+                continue
+            for x in ast.walk(f.node):
+                if isinstance(x, ast.Call) and isinstance(x.func, ast.Attribute) and isinstance(x.func.value, ast.Name) and x.func.value.id in ("self", "cls") and x.func.attr in hot:
+                    hot.add(n_)
+                    changed = True
+                    break
+    return frozenset(methods[n_].qual for n_ in hot)
+
+
 def analyse(ctx, which):
     """which: 'pool' | 'manager' | 'proxymanager'."""
     m = ctx.model
@@ -282,8 +323,10 @@ def analyse(ctx, which):
         cls, fi = f"{PM}.PoolManager", m.method(f"{PM}.PoolManager", "urlopen")
     else:
         cls, fi = f"{PM}.ProxyManager", m.method(f"{PM}.ProxyManager", "urlopen")
-    rule = ResendRule(m, m.method(f"{PM}.PoolManager", "urlopen") if which == "proxymanager" else fi)
-    it = Interp(m, rule, cls, fi.module, frozenset(), budget=Budget(800000))
+    hot = hot_helpers(m, cls, fi)
+    ctx.extra.setdefault("resend_inlined_helpers", {})[which] = sorted(hot)
+    rule = ResendRule(m, m.method(f"{PM}.PoolManager", "urlopen") if which == "proxymanager" else fi, hot)
+    it = Interp(m, rule, cls, fi.module, frozenset(hot), budget=Budget(800000))
     it.func_qual = fi.qual
     it.record_decisions = True
     st = State()
